@@ -548,6 +548,45 @@ def run(prog, ctx):
     res.rule("C10.B", n_b, 2, "binary-search comparators")
 
     check_extremes(prog, res, "C10.X")
+
+    # ---------------- C10.F the streaming front end answers from flushed state: with at least two values held (centroids + unflushed
+    # buffer) and min < max, a query inside [min, max] is answered by the view (after the flush), not by a shortcut that looked at
+    # the centroid list alone; below min / above max a shortcut may only say 0 / 1.  By value over (centroids, buffer, min, max, v).
+    n_f = 0
+    mut = "tdigest::sketch::TDigestMut"
+    for f in C.fns_of(prog, mut):
+        if f.promoted or "{closure" in f.id:
+            continue
+        e = C.ret_expr(prog, f)
+        if e is None or not any(x[0] == "call" and x[1].rsplit("::", 1)[-1] == "rank" and "TDigestView" in x[1] for x in sym.walk(e)):
+            continue
+        arg = next((f.local_name(i) for i in range(2, f.argc + 1) if f.local_name(i)), None)
+        if arg is None:
+            continue
+        n_f += 1
+        verdict, wit = True, ""
+        n_ev = 0
+        for a in (0, 1, 2, 5):
+            for b in (0, 1, 2, 9):
+                if a + b < 2:
+                    continue
+                for v in (0.0, 1.0, 2.0, 3.0, 9.0):
+                    env = {"@prog": prog, "@ieee": True, "@fn:is_empty": lambda *x: False, "self.min": 1.0, "self.max": 3.0, arg: v,
+                           "self.buffer": [2.0] * b, "self.centroids": [0] * a, "@fn:rank": lambda *x: "VIEW", "@fn:is_nan": lambda *x: False,
+                           "@lenient": ("rank", "is_empty")}
+                    try:
+                        got = formula.evaluate(e, env)
+                    except (formula.Uneval, TypeError):
+                        continue
+                    n_ev += 1
+                    allowed = ["VIEW"] + ([("$variant", "Some", 0.0)] if v < 1.0 else []) + ([("$variant", "Some", 1.0)] if v > 3.0 else [])
+                    if got not in allowed and verdict:
+                        verdict = False
+                        wit = "with %d centroid(s), %d buffered value(s), min 1, max 3 the query %s(%r) returns %r without consulting the flushed digest" % (a, b, f.item_name, v, got)
+        if n_ev == 0:
+            verdict = None
+        res.tri(verdict, "C10.F", "C10.F|%s" % f.id, "%s: %s" % (f.id, wit), f.id)
+    res.rule("C10.F", n_f, 1, "front-end rank shortcuts vs flushed state")
     res.explanation = ("the expression returned at each return site of rank()/quantile() is extracted with the branch decisions of every path to it and "
                        "summaries of the accumulation loops in front of it, and evaluated on %d sampled digest states satisfying the digest invariants; "
                        "range and monotonicity in the query are checked per site" % n_digests)
